@@ -85,10 +85,13 @@ struct Run {
 		C ca = mk(a), cb = mk(b);
 		char hw[32];
 		if (g_arith) {
-			hwtok(hw, a, b, 0); std::printf("%s add %llx %llx => %llx%s\n", hdr, a, b, enc(ca + cb), hw);
-			hwtok(hw, a, b, 1); std::printf("%s sub %llx %llx => %llx%s\n", hdr, a, b, enc(ca - cb), hw);
-			hwtok(hw, a, b, 2); std::printf("%s mul %llx %llx => %llx%s\n", hdr, a, b, enc(ca * cb), hw);
-			hwtok(hw, a, b, 3); std::printf("%s div %llx %llx => %llx%s\n", hdr, a, b, enc(ca / cb), hw);
+			// equal encodings: ONE object on both sides (x op= x) — the result must not depend on aliasing
+			auto self = [&](int op) { C t = ca; switch (op) { case 0: t += t; break; case 1: t -= t; break; case 2: t *= t; break; default: t /= t; } return t; };
+			const bool same = (a == b);
+			hwtok(hw, a, b, 0); std::printf("%s add %llx %llx => %llx%s\n", hdr, a, b, enc(same ? self(0) : ca + cb), hw);
+			hwtok(hw, a, b, 1); std::printf("%s sub %llx %llx => %llx%s\n", hdr, a, b, enc(same ? self(1) : ca - cb), hw);
+			hwtok(hw, a, b, 2); std::printf("%s mul %llx %llx => %llx%s\n", hdr, a, b, enc(same ? self(2) : ca * cb), hw);
+			hwtok(hw, a, b, 3); std::printf("%s div %llx %llx => %llx%s\n", hdr, a, b, enc(same ? self(3) : ca / cb), hw);
 		}
 		if (g_order) {
 			unsigned m = (ca == cb ? 1u : 0u) | (ca != cb ? 2u : 0u) | (ca < cb ? 4u : 0u) | (ca <= cb ? 8u : 0u) | (ca > cb ? 16u : 0u) | (ca >= cb ? 32u : 0u);
@@ -253,6 +256,18 @@ struct Run {
 		}
 	}
 	static ull operand(uv::Rng& g) {
+		if (g.below(8) == 0) {
+			// exactly ONE non-zero storage limb (optionally plus the sign): hand-unrolled per-limb code paths
+			// (iszero / isinf / isnan / clear for 1, 2, 3, 4, n blocks) are only told apart by such encodings
+			constexpr unsigned bpb = 8 * sizeof(bt);
+			constexpr unsigned nl = (nbits + bpb - 1) / bpb;
+			unsigned k = (unsigned)g.below(nl);
+			ull limb = g.next() & uv::mask(bpb); if (!limb) limb = 1;
+			if (g.coin()) limb = 1ull << g.below(bpb);
+			ull v = (bpb * k >= 64) ? 0 : (limb << (bpb * k));
+			v &= uv::mask(nbits - 1);
+			return v | (g.below(4) == 0 ? 1ull << (nbits - 1) : 0);
+		}
 		return (g.coin() ? 1ull << (nbits - 1) : 0) | (expfield(g) << fbits) | fracfield(g);
 	}
 	static void random(ull count) {
@@ -307,7 +322,8 @@ template<unsigned nbits, unsigned es, typename bt, bool sub, bool sup, bool sat>
 	FLAGS_ALL(X,8,2,BT) FLAGS_ALL(X,8,3,BT) FLAGS_ALL(X,8,4,BT) FLAGS_ALL(X,8,5,BT)
 #define LARGE(X) X(16,5,uint16_t,1,0,0) X(16,8,uint16_t,1,0,0) X(32,8,uint32_t,1,0,0) X(64,11,uint32_t,1,0,0) \
 	X(24,5,uint8_t,1,1,0) X(24,5,uint32_t,0,0,1) X(24,5,uint16_t,1,0,0) X(40,8,uint8_t,1,1,1) X(40,8,uint32_t,1,0,0) X(40,8,uint16_t,0,1,0) \
-	X(16,5,uint8_t,0,1,1) X(16,5,uint32_t,1,1,0) X(12,4,uint16_t,1,0,1) X(32,8,uint8_t,0,0,0)
+	X(16,5,uint8_t,0,1,1) X(16,5,uint32_t,1,1,0) X(12,4,uint16_t,1,0,1) X(32,8,uint8_t,0,0,0) \
+	X(32,8,uint8_t,1,0,0) X(26,6,uint8_t,1,1,0) X(64,11,uint16_t,1,0,0) X(48,8,uint16_t,1,0,0)
 
 #if UV_PART == 8
 #define CONFIGS(X) SMALL(X, uint8_t)
